@@ -80,14 +80,16 @@ fn budgets(method: RefMethod, thorough: bool) -> &'static [u64] {
 }
 
 fn layer_decomposition(ctx: &Ctx, totals: &mut LoomTotals) {
-    let bounds = if ctx.thorough() {
-        Bounds { max_internal: 4, max_arity: 3, max_leaves: 5, chance_infosets: true, degenerate: true }
-    } else {
-        Bounds { max_internal: 3, max_arity: 3, max_leaves: 5, chance_infosets: true, degenerate: true }
-    };
+    // (the full M = 4 universe x histories x targets does not finish in an hour; the thorough tier
+    // keeps M = 3 with more presets, budgets and a larger history cap, plus the binary M = 4 universe)
+    let bounds = Bounds { max_internal: 3, max_arity: 3, max_leaves: 5, chance_infosets: true, degenerate: true };
     let all = skeletons(&bounds);
     universe_summary(ctx, &bounds, all.len());
     let mut games: Vec<(String, Tree)> = all.iter().enumerate().map(|(i, s)| (format!("u{}", i), fill_distinct(s, i))).filter(|(_, tr)| super::has_decision(tr)).collect();
+    if ctx.thorough() {
+        let deeper = Bounds { max_internal: 4, max_arity: 2, max_leaves: 5, chance_infosets: false, degenerate: false };
+        games.extend(skeletons(&deeper).iter().enumerate().filter(|(_, s)| s.num_internal() == 4 && super::has_decision(s)).map(|(i, s)| (format!("deep{}", i), fill_distinct(s, i))));
+    }
     games.extend(families().into_iter().filter(|(n, _)| n != "kuhn"));
     games.extend(collision_games());
     for (k, depths) in [(2usize, 2..=4usize), (3, 2..=3)] {
